@@ -775,6 +775,9 @@ class Sim:
                 o2 = ap(P.copy(), R, S)
             except Exception as e:
                 raise Violation('unexpected_exception', 'apply_pauli_F2', f'{type(e).__name__}: {e} (register of {Wc} qubits)')
+            for ox in (o1, o2):
+                if not (isinstance(ox, np.ndarray) and ox.shape == (2 * Wc + 2,) and ox.max(initial=0) <= 1):
+                    raise Violation('conjugation', 'apply_pauli_F2', f'result {ox!r} is not an F2 vector of length {2 * Wc + 2} (register of {Wc} qubits)')
             if not np.array_equal(o1, o2):
                 raise Violation('conjugation', 'apply_pauli_F2', f'apply_pauli_F2 and the tableau of the same circuit disagree on a {Wc}-qubit register')
             o = np.asarray(o1)
